@@ -87,7 +87,8 @@ type payload struct {
 	path    ast.Path
 	hasNext *bool
 	ext     map[string]any
-	delayUS int // delay before this payload is produced
+	errExt  map[string]any // extensions of every error of this payload
+	delayUS int            // delay before this payload is produced
 }
 
 type plan struct {
@@ -262,7 +263,7 @@ func (e *fakeES) Exec(ctx context.Context) graphql.ResponseHandler {
 		}
 		r := &graphql.Response{Data: p.data, Label: p.label, Path: p.path, HasNext: p.hasNext}
 		for _, m := range p.errs {
-			r.Errors = append(r.Errors, &gqlerror.Error{Message: m})
+			r.Errors = append(r.Errors, &gqlerror.Error{Message: m, Extensions: p.errExt})
 		}
 		e.produced.Add(1)
 		return r
@@ -278,7 +279,11 @@ var nasty = []string{
 }
 
 func genString(r *rng.R) string {
-	switch r.Below(4) {
+	switch r.Below(6) {
+	case 4, 5:
+		// the content classes of content.go ('%' and printf verbs, this exchange's multipart delimiters, SSE fields,
+		// quotes, non-ASCII, HTML, controls)
+		return genContentAny(r)
 	case 0:
 		return nasty[r.Below(len(nasty))]
 	case 1:
@@ -287,7 +292,7 @@ func genString(r *rng.R) string {
 		n := r.Below(12)
 		b := make([]byte, n)
 		for i := range b {
-			const alpha = "abcXYZ019 :-\n\r{}[],\""
+			const alpha = "abcXYZ019 :-\n\r{}[],\"%%sd\\<"
 			b[i] = alpha[r.Below(len(alpha))]
 		}
 		return string(b)
@@ -367,6 +372,9 @@ func genPayload(r *rng.R, dclass int, incremental bool) payload {
 		for i := 0; i < n; i++ {
 			p.errs = append(p.errs, genString(r))
 		}
+		if r.Below(3) == 0 {
+			p.errExt = map[string]any{"code": genString(r), genString(r): genValue(r, 1)}
+		}
 	}
 	if r.Below(5) == 0 {
 		p.ext = map[string]any{genString(r): genValue(r, 1)}
@@ -403,6 +411,7 @@ var kaChoices = []int{0, 1, 1, 2, 5, 20, 50, 200, 1000, 5000}
 
 func genSSE(r *rng.R, id int, directed int) *plan {
 	p := &plan{id: id, kind: "sse", disc: -1, cancelAt: -1, body: `{"query":"{ x }"}`}
+	curBoundary = ""
 	n := genCount(r)
 	dclass := r.Below(5)
 	p.kaUS = kaChoices[r.Below(len(kaChoices))]
@@ -518,6 +527,7 @@ func genMP(r *rng.R, id int, directed int) *plan {
 	}
 	dclass := r.Below(5)
 	p.boundary = boundaries[r.Below(len(boundaries))]
+	curBoundary = p.boundary
 	p.timeoutUS = timeouts[r.Below(len(timeouts))]
 	p.desc = "random"
 	noshape := 0
@@ -1134,6 +1144,8 @@ type corpusPlan struct {
 	Msg        string `json:"msg"`
 	Query      string `json:"query"`
 	Desc       string `json:"desc"`
+	// explicit contents of the good payloads (content-*.json); when present N is their number
+	Payloads []corpusPayload `json:"payloads"`
 	// server-side cancellation of the request context (client stays connected)
 	CancelAt    *int `json:"cancel_at"`    // absent: never; k: just before response k is built
 	CancelUS    int  `json:"cancel_us"`    // deadline, microseconds after the request arrived
@@ -1173,8 +1185,20 @@ func loadCorpus(dir string, r *rng.R, add func(*plan), nextID func() int) {
 			p.cancelAt = *c.CancelAt
 		}
 		t, fl := true, false
+		curBoundary = ""
+		if p.kind == "mp" {
+			curBoundary = p.boundary
+		}
+		if len(c.Payloads) > 0 {
+			c.N = len(c.Payloads)
+		}
 		for i := 0; i < c.N; i++ {
 			pl := genPayload(rr, c.DelayClass, p.kind == "mp" && i > 0)
+			if len(c.Payloads) > 0 {
+				d := pl.delayUS
+				pl = c.Payloads[i].toPayload()
+				pl.delayUS = d
+			}
 			if p.kind == "mp" {
 				if i < c.N-1 || c.Panic {
 					pl.hasNext = &t
@@ -1217,6 +1241,16 @@ func buildPlans(tier string, seed uint64, nSSE, nMP int) []*plan {
 		}
 		for d := 1; d <= 22; d++ {
 			add(genMP(r.Fork(), id, d))
+		}
+		if rep%4 == 0 {
+			// every content class at every place of a response, both transports (content.go)
+			for _, kind := range []string{"sse", "mp"} {
+				for _, class := range contentClasses {
+					for _, place := range contentPlaces {
+						add(genContentCase(r.Fork(), id, kind, class, place))
+					}
+				}
+			}
 		}
 	}
 	loadCorpus(corpusDir, r, add, func() int { return id })
